@@ -133,13 +133,22 @@ func doLocalSymbolize(prof *profile.Profile, fast, force bool, obj plugin.ObjToo
 		}
 	}
 
+	// New functions get ids above the largest id in use: the ids of a
+	// profile are not necessarily 1..len(prof.Function).
+	var maxFunctionID uint64
+	for _, f := range prof.Function {
+		if f.ID > maxFunctionID {
+			maxFunctionID = f.ID
+		}
+	}
 	functions := map[profile.Function]*profile.Function{}
 	addFunction := func(f *profile.Function) *profile.Function {
 		if fp := functions[*f]; fp != nil {
 			return fp
 		}
 		functions[*f] = f
-		f.ID = uint64(len(prof.Function)) + 1
+		maxFunctionID++
+		f.ID = maxFunctionID
 		prof.Function = append(prof.Function, f)
 		return f
 	}
